@@ -5,8 +5,8 @@ import RbpfModel.Lemmas.ClifFnsAux
 namespace Rbpf
 open Rbpf.ClifAst Rbpf.Generated.Clif
 
-theorem ClifFns_translated : helpersSrcOk = true ∧ armsSrcOk = true ∧ straightOpcodes.length = 74 ∧ (straightOpcodes ++ otherOpcodes).length = 123 ∧
-    (straightOpcodes ++ otherOpcodes).Nodup := by decide +kernel
+theorem ClifFns_translated : helpersSrcOk = true ∧ armsSrcOk = true ∧ straightOpcodes.length = 74 ∧ ctlOpcodes.length = 49 ∧ otherOpcodes = [] ∧
+    (straightOpcodes ++ ctlOpcodes).Nodup ∧ defaultArmPanics = true := by decide +kernel
 
 /-- the twelve helper functions: the model's builder actions are the source's, statement by statement -/
 theorem ClifFns_helpers (i : Insn) (v : Arg) (ty : Ty) (base : Arg) (offset : BitVec 16) :
@@ -24,6 +24,24 @@ theorem ClifFns_boundsCheck (ty : Ty) (base : Arg) (offset : BitVec 16) : insert
 /-- the translated arms: every ALU and byte-swap arm, the loads (`ldabs`, `ldind`, `ldx`), the stores and the two atomic adds -/
 theorem ClifFns_arm (helpers : Nat → Bool) (p : Bytes) (pc : Nat) (i : Insn) (h : i.opc.toNat ∈ straightOpcodes) :
     straightArmSrc i = some (armB helpers p pc i) := straightArm_eq helpers p pc i h
+
+/-- the other 49 arms (`ja`, the 44 conditional jumps, the wide load, `call`, `tail_call`, `exit`); `insn_targets[&insn_ptr]`, the table `build_cfg` fills, is the model's `targetPc` -/
+theorem ClifFns_ctlArm (helpers : Nat → Bool) (p : Bytes) (pc : Nat) (i : Insn) (h : i.opc.toNat ∈ ctlOpcodes) :
+    ctlArmSrc helpers p pc i = some (armB helpers p pc i) := ctlArm_eq helpers p pc i h
+
+/-- so for every instruction the model's arm is the source's: one of the 123 translated arms, or `unimplemented!` -/
+theorem ClifFns_armB (helpers : Nat → Bool) (p : Bytes) (pc : Nat) (i : Insn) :
+    armB helpers p pc i = (match straightArmSrc i with
+      | some b => b
+      | none => match ctlArmSrc helpers p pc i with
+        | some b => b
+        | none => throw .panic) := by
+  by_cases h1 : i.opc.toNat ∈ straightOpcodes
+  · rw [straightArm_eq helpers p pc i h1]
+  · rw [straightNone i h1]
+    by_cases h2 : i.opc.toNat ∈ ctlOpcodes
+    · rw [ctlArm_eq helpers p pc i h2]
+    · rw [ctlNone helpers p pc i h2, armB_default helpers p pc i h1 h2]
 
 /-- `build_function_prelude`: the entry block's operations (stack addresses, ends of the two memory areas, R1, R2, the jump) are the source's -/
 theorem ClifFns_prelude : preludeSrcOk = true ∧ preludeSrcB = preludeB := ⟨by decide, rfl⟩
